@@ -7,6 +7,7 @@ package main
 import (
 	"errors"
 	"fmt"
+	"os"
 	"sort"
 	"strconv"
 	"strings"
@@ -672,7 +673,10 @@ func exec(h *rt.H, s *state, op string) string {
 			s.touch(it.k)
 			items = append(items, it)
 		}
-		if dup {
+		if dup && os.Getenv("VERIF_C18_DUPKEYS") == "strict" {
+			// experiment mode (used to evaluate a "last value wins" fix of ReplaceAllIter): keep the oracle on
+			h.Count("repl:dup-keys-strict")
+		} else if dup {
 			// the excluded point: executed on the real code and compared with the model, but outside the
 			// property's precondition (iterator yields distinct keys), so the oracle stops for this case
 			s.tainted = true
